@@ -150,6 +150,15 @@ impl InputList {
                     )));
                 }
             }
+            if let Ok(Event::Start(e) | Event::Empty(e)) = &ev {
+                // an attribute list which is not well-formed (duplicate name, unquoted
+                // value...) must not reach the output of a document passed through as-is
+                if let Some(Err(err)) = e.attributes().find(|a| a.is_err()) {
+                    return Err(SvgdxError::ParseError(format!(
+                        "Invalid attribute near line {src_line}: {err}"
+                    )));
+                }
+            }
             let event_lines = if let Ok(ok_ev) = ev.clone() {
                 ok_ev.as_ref().iter().filter(|&c| *c == b'\n').count()
             } else {
